@@ -59,7 +59,7 @@ def configs(tier, seed):
             out.append(dict(op="filtered", shape=list(shape), pal=PAL, common=common))
     # sliced / slices1d
     for common in PAL[:2]:
-        for orders in ([0], [2], [[2, 0]], [[1]], [[0, 1, 2]], [None], []):
+        for orders in ([0], [2], [[2, 0]], [[1]], [[0, 1, 2]], [None], [], [[1, 1]], [[2, 0, 2]]):
             out.append(dict(op="sliced", shape=[2, 3], pal=PAL, common=common, orders=orders))
         for orders in ([1, 0], [None, 1], [[1, 0], None], [0, [1]], [None, None], [[1], [0, 1]]):
             out.append(dict(op="sliced", shape=[2, 2, 2], pal=PAL[:2] + [5], common=common, orders=orders))
